@@ -218,12 +218,18 @@ DataVariants(id) ==
        \cup {id \o <<b>> : b \in Bits}
        \cup {Mutate(id, j) : j \in 1..Len(id)}
 AltZZ(z) == IF z \in {ANY, 8, 16} THEN 254 ELSE 8
+(* source addresses: masters with even and odd master numbers below and above 16 (10 = #2, 31 = #8, 03 = #11, *)
+(* 17 = #17, FF = #25); the source bits of the key are shared with the active read/write markers             *)
+QQAll == {16, 49, 3, 23, 255}
 TelsOfDef(d, qqs) ==
   LET zz0 == IF d.dst = ANY THEN 8 ELSE d.dst
       datas == UNION {DataVariants(d.ids[k]) : k \in 1..Len(d.ids)}
   IN {[qq |-> q, zz |-> z, pb |-> d.pb, sb |-> d.sb, data |-> x] : q \in qqs, z \in {zz0, AltZZ(d.dst)}, x \in datas}
      \cup {[qq |-> q, zz |-> zz0, pb |-> d.pb, sb |-> d.sb + 1, data |-> d.ids[1]] : q \in qqs}
-QQsOf(defs) == IF \E k \in 1..Len(defs) : defs[k].src # ANY THEN {16, 49} ELSE {16}
+     \cup {[qq |-> q, zz |-> zz0, pb |-> d.pb, sb |-> d.sb, data |-> x] :           \* every source for the exact and an extended ID
+            q \in QQAll, x \in UNION {{d.ids[k], d.ids[k] \o <<0>>} : k \in 1..Len(d.ids)}}
+QQsOf(defs) ==      \* even and odd master number (+ a non-matching one); sets of 3 get the odd ones through QQAll only
+  (IF \E k \in 1..Len(defs) : defs[k].src # ANY THEN {16, 49} ELSE {16}) \cup (IF Len(defs) <= 2 THEN {3} ELSE {})
 Tels(defs) == UNION {TelsOfDef(defs[k], QQsOf(defs)) : k \in 1..Len(defs)}
 
 Wants == SUBSET {"r", "w", "p"}
